@@ -8,10 +8,12 @@ MANIFEST = dict(
          "TLC-generated tapes+chunk sequences are replayed literally into the real ReadTCPRequest/ReadTCPResponse through a scripted "
          "io.Reader that records requests/consumption/allocation; a boundary grid at the real limits (63/64, 16383/16384, 2048/2049, "
          "4096/4097, 2^30, 2^62-1; widths 1/2/4/8), seeded random frames and the output of the real writers are read back the same way; "
+         "end to end, real client.TCP calls (with and without fast-open) cross a real QUIC connection to a real server whose recording outbound "
+         "observes the parsed address and the first payload bytes behind the frame (and the client the status/message and first reply bytes); "
          "every real call is validated by TLC against the same monitor.",
     note="Trusted: TLC; the harness' scripted reader accounting (bytes served, furthest offset requested), runtime.MemStats.TotalAlloc, "
          "and for tapes > 600 bytes the harness' comparison of the returned string with the tape slice whose offsets the monitor verifies "
-         "from the logged length fields. The e2e path over a real QUIC stream (server consuming only the frame-type varint) is not driven.",
+         "from the logged length fields. The e2e part observes equality of addresses/payload prefixes in the harness.",
     tech="TLA+ model checking (TLC) + TLC-generated scenario replay + TLC trace validation of real-code traces", ref="5/C04")
 
 
@@ -20,6 +22,8 @@ def sig(e):
         return "Read:%s,head=%s,mode=%s" % (e["kind"], ".".join(map(str, e["head"])), e["mode"])
     if e["ev"] == "Written":
         return "Written:%s,inLen=%s" % (e["kind"], e["inLen"])
+    if e["ev"] == "E2E":
+        return "E2E:addrLen=%s,msgLen=%s,fast=%s" % (e["addrLen"], e["msgLen"], e["fast"])
     return e["ev"]
 
 
@@ -29,6 +33,8 @@ def distinct(e):
         return ("R", e["kind"], tuple(e["head"]), tuple(e["mid"][:8]), e["tapeLen"], e["mode"], e["err"])
     if e["ev"] == "Written":
         return ("W", e["kind"], e["inLen"], e["tapeLen"])
+    if e["ev"] == "E2E":
+        return ("E", e["fast"], e["addrLen"], e["msgLen"])
     return None
 
 
@@ -41,6 +47,7 @@ def run(ctx):
     scns = ctx.tlc_gen("MC_Wire", "Gen_Wire.cfg", num=4000 if T else 400, depth=60)
     ctx.write_scenarios("wire", scns)
     ctx.go_test("core", "./internal/protocol/", "TestVerif_C04$", ["harness/core/internal/protocol/c04_test.go"])
+    ctx.go_test("core", "./internal/integration_tests/", "TestVerif_C04E2E$", ["harness/core/internal/integration_tests/c04_e2e_test.go"], timeout=600)
     events = ctx.validate("Prop_C04", sig=sig, distinct=distinct)
     # machinery self-checks: a harness whose windows disagree with the monitor's parse is BROKEN, not drift
     if any(d["clause"] == "DRIFT_HarnessWindow" for d in ctx.drift):
@@ -58,4 +65,4 @@ def run(ctx):
                         "allocation is observed as runtime.MemStats.TotalAlloc delta around the call (minimum of three runs for rejected frames)",
                         "for tapes > 600 bytes equality of the returned address with the tape slice is observed by the harness; offsets and lengths are decided by the monitor"]
     return ctx.finish(rule="Read: distinct (kind, encoded length fields, tape length, chunking mode, outcome) reader calls on a scripted tape; "
-                           "Written: distinct (kind, input length, frame length) writer calls")
+                           "Written: distinct (kind, input length, frame length) writer calls; E2E: distinct (fast-open, address length, error-message length) client.TCP calls")
